@@ -431,3 +431,86 @@ Proof.
   apply good_of_pq; auto. generalize (t_good _ T). unfold its. rewrite H0. auto.
 Qed.
 End Q.
+
+(* ---------- a specification state for a well-formed table: the dictionary of its entries ---------- *)
+Definition spec_of (r : rstate) : sstate :=
+  {| s_dict := map kv (r_ents r);
+     s_subs := flat_map (fun e => map (tag (Some (re_key e))) (re_subs e)) (r_ents r) ++ map (tag None) (r_subs r);
+     s_alive := r_alive r |}.
+
+Lemma d_get_map_kv : forall ents k, forallb is_live ents = true ->
+  d_get (map kv ents) k = option_map re_val (find_live ents k).
+Proof.
+  unfold find_live. induction ents; simpl; intros; auto. apply andb_true_iff in H. destruct H as [H1 H2].
+  rewrite H1. simpl. destruct (key_eqb (re_key a) k); auto.
+Qed.
+
+Lemma filter_none_tagged : forall (p : sub -> bool) k l, (forall f, p (tag k f) = false) -> filter p (map (tag k) l) = [].
+Proof. induction l; simpl; intros; auto. rewrite H. auto. Qed.
+Lemma filter_all_tagged : forall (p : sub -> bool) k l, (forall f, p (tag k f) = true) -> filter p (map (tag k) l) = map (tag k) l.
+Proof. induction l; simpl; intros; auto. rewrite H. rewrite IHl; auto. Qed.
+
+Lemma filter_flat_tagged_none : forall (p : sub -> bool) ents,
+  (forall e f, In e ents -> p (tag (Some (re_key e)) f) = false) ->
+  filter p (flat_map (fun e => map (tag (Some (re_key e))) (re_subs e)) ents) = [].
+Proof.
+  induction ents; simpl; intros; auto. rewrite filter_app. rewrite filter_none_tagged by (intros; apply H; auto).
+  simpl. apply IHents. intros. apply H; auto.
+Qed.
+
+Lemma ksubs_spec_of : forall ents e, NoDup (map re_key ents) -> In e ents ->
+  filter (targets (re_key e)) (flat_map (fun e0 => map (tag (Some (re_key e0))) (re_subs e0)) ents) = map (tag (Some (re_key e))) (re_subs e).
+Proof.
+  induction ents; simpl; intros. contradiction. inversion H; subst. rewrite filter_app. destruct H0.
+  - subst a. rewrite filter_all_tagged by (intros; unfold targets, tag; simpl; apply key_eqb_refl).
+    rewrite filter_flat_tagged_none. apply app_nil_r.
+    intros e0 f He0. unfold targets, tag. simpl. apply key_eqb_neq. intro Q. apply H3. rewrite <- Q. apply in_map; auto.
+  - rewrite filter_none_tagged. simpl. apply IHents; auto.
+    intros f. unfold targets, tag. simpl. apply key_eqb_neq. intro Q. apply H3. rewrite Q. apply in_map; auto.
+Qed.
+
+Lemma inv17_spec_of : forall r,
+  r_iters r = [] -> forallb is_live (r_ents r) = true -> (forall e, In e (r_ents r) -> re_id e < r_next r) ->
+  NoDup (map re_id (r_ents r)) -> NoDup (map re_key (r_ents r)) -> Inv17 r (spec_of r).
+Proof.
+  intros r HI HL HID ND NK. constructor; simpl; auto.
+  - intros. apply d_get_map_kv; auto.
+  - rewrite map_map. simpl. exact NK.
+  - apply map_length.
+  - rewrite filter_app. rewrite filter_flat_tagged_none by (intros; reflexivity). simpl.
+    apply filter_all_tagged. intros; reflexivity.
+  - intros e He. rewrite filter_app. rewrite ksubs_spec_of by auto.
+    rewrite filter_none_tagged by (intros; reflexivity). apply app_nil_r.
+  - intros s k Hs Hk. apply in_app_or in Hs. destruct Hs as [Hs|Hs].
+    + apply in_flat_map in Hs. destruct Hs as [e [He Hs]]. apply in_map_iff in Hs. destruct Hs as [f [Hf _]]. subst s. simpl in Hk.
+      inversion Hk; subst. unfold d_mem. rewrite d_get_map_kv by auto.
+      destruct (find_live (r_ents r) (re_key e)) eqn:F; auto. exfalso. eapply find_live_none; eauto. eapply forallb_forall in HL; eauto.
+    + apply in_map_iff in Hs. destruct Hs as [f [Hf _]]. subst s. discriminate.
+Qed.
+
+Section Survivors.
+Variable hf : key -> N.
+
+Lemma inv17_abs : forall s, Good hf s -> Inv17 (abs s) (spec_of (abs s)).
+Proof.
+  intros. apply inv17_spec_of; simpl; auto.
+  - apply all_live_abs with (hf := hf); auto.
+  - intros e He. apply in_map_iff in He. destruct He as [id [E1 E2]]. subst e. rewrite ent_id. eapply linked_lt; eauto.
+  - rewrite map_map. erewrite map_ext. 2:{ intros. apply ent_id. } rewrite map_id. apply (g_nodup _ _ H).
+  - rewrite map_map. apply (g_keys _ _ H).
+Qed.
+
+(* C18, last clause, pointer-level hashtable model: after ANY history (iterators created, stepped, abandoned, entries
+   removed and added under them), once all iterators have been freed the table is again a dictionary of the surviving
+   entries: from the specification state whose dictionary is exactly the table's live entries (key, value) and whose
+   subscriptions are the table's, every further iterator-free history runs in lock step with the specification *)
+Theorem hash_c18_survivors : forall rc m ops1 s,
+  h_state_after v_fixed hf rc (h_create m) ops1 = Ok s -> h_iters s = [] -> h_alive s = true ->
+  s_dict (spec_of (abs s)) = live_kv (abs s) /\
+  forall ops2, no_iter_ops ops2 = true -> b_lockstep hf rc s (spec_of (abs s)) ops2.
+Proof.
+  intros. assert (G : Good hf s) by (eapply hash_survivors_good; eauto). split.
+  - unfold live_kv. rewrite (live_abs hf) by auto. reflexivity.
+  - intros. apply hash_c17_from; auto. apply inv17_abs; auto.
+Qed.
+End Survivors.
